@@ -393,7 +393,13 @@ CLAIMS = {
          "program generator of the lowering tie); lower_parse_print_ops / lower_parse_print_ops_tree: on the image of Pratt.Cst restricted to operator trees (identifiers, integers, "
          "parentheses, both prefix and all twelve binary operators; no call, no `.`) Model/Lower.lean computes what Pratt.lower computes, so parse_print "
          "holds for the lowering model that is tied to ast::lower, under the decidable side condition fits (no variable spelled like a constructor). "
-         "NOT proved: the postfix group of lower_parse_print (calls, fields, projections, then constructors / all literal kinds / paths as atoms), "
+         "lower_parse_print / lower_parse_print_tree (fifth pass): the same for the WHOLE image of Pratt.Cst — calls (identifier callee, postfix callee, "
+         "handed down), field access and tuple projection (applied or handed down to the operand of a prefix operator), any pending list — under the "
+         "decidable side condition okC (no identifier in expression position spelled like a constructor of the file; tuple indices fit usize, beyond "
+         "which the real code reports a diagnostic): Pratt.lower c tr = some a implies Model/Lower.lean lowers embed c to toExpr a, so parse_print holds "
+         "for the lowering model tied to ast::lower. TIED, not proved: that the real rowan tree of these texts is embed of the Pratt CST (up to "
+         "punctuation tokens no accessor reads). NOT proved: constructors / literals of every kind / multi-segment paths / closures / blocks as atoms "
+         "of lower_parse_print, "
          "lower_parse_print beyond operator trees, "
          "sufficiency of the model's fuel, source ranges of lowering diagnostics (not modelled). "
          "Trusted: Lean kernel, tools/extract.py regexes, harness AST dump and trivia insertion, the real lexer (C12) for token boundaries.",
